@@ -32,7 +32,7 @@ CHECKS = [
   'technique': 'path-exhaustive symbolic execution of detect_on_trajectory and the cubic refinement on symbolic samples; per-path contracts and the Hermite derivative identity discharged by z3',
   'level': 'For all sample values/times within the bounds: detected on-surface and crossing sets equal the specification, alpha in [0,1], each hit on the plane and inside its bracket with time and state '
            'interpolated by the same parameter, hits time-ordered, nothing lost in dedup when candidates are separated; _hermite_der is the derivative of _hermite_scalar for all arguments; cubic refinement stays in its bracket.',
-  'note': 'N = 3 samples (4 thorough), two concrete normals with symbolic/concrete offset, state dim 6; segment_refine > 0 driver not encoded; convergence order under refinement is analysis outside the claim'},
+  'note': 'N = 3 samples (4 thorough), two concrete normals with symbolic/concrete offset, state dim 6; dense path (segment_refine = 1; 2 thorough) encoded for linear interpolation, its cubic variant only through the shared Hermite helpers; convergence order under refinement is analysis outside the claim'},
  {'id': 'C02',
   'technique': 'B-series value domain driven through the real step/dense-output kernels (symbolic h, theta); coefficient residuals bounded by a solver-checked certificate; explorer for the zero-span shortcut',
   'level': 'For every rooted tree up to the declared order (200 trees to order 8) the B-series of one step of the real kernels equals that of the exact flow; embedded estimators vanish to their order and not beyond; '
@@ -48,12 +48,12 @@ CHECKS = [
   'technique': 'QF_FP truth tables for the crossing predicates; path-exhaustive symbolic execution (z3) of the bisection refinements and of all event drivers with event function, field, kernels and interpolant uninterpreted',
   'level': 'All float64 pairs: crossing predicates = strict direction-compatible sign change (or exact zero at the step end). Bisection: bracket invariant, halving, exit conditions, hit inside the step on the interpolant. '
            'Drivers (fixed/RK45/DOP853 x generic/Hamiltonian, symplectic): a hit is reported at the first accepted step satisfying the rule and refined on that step, filtered directions never trigger, otherwise the last state at t_max.',
-  'note': 'bisection unwound to 3 (4 thorough) of 128 iterations; drivers to 2 (3) kernel calls / 2 grid steps; "first" is at step granularity; interpolation order is C02-(3)'},
+  'note': 'bisection unwound to 3 (4 thorough) of 128 iterations; drivers to 2 kernel calls (thorough: 3 for RK45/fixed, DOP853 stays at 2) / 2 grid steps; the refinement must receive both end derivatives and the stage matrix of the bracketing step; "first" is at step granularity; interpolation order is C02-(3)'},
  {'id': 'C17',
   'technique': 'symbolic execution of the Hamiltonian right-hand side and evaluators on a polynomial with symbolic coefficients (z3 residual queries); syntactic/solver equivalence of generic vs Hamiltonian kernels and product-program exploration of the driver twins',
   'level': 'For all coefficient values and states: _hamiltonian_rhs, hamsys.rhs and the dH_dQ/dH_dP evaluators equal (dH/dP, -dH/dQ); each *_ham step kernel equals its generic twin for an arbitrary field; '
            'generic and Hamiltonian drivers (fixed, RK45, DOP853, with and without events) produce identical traces and results on every explored path; integrate() dispatches on the runtime protocol; one compiled-build evaluation of hamsys.rhs.',
-  'note': 'H of degree <= 3 with 13 symbolic coefficients; driver product runs unwound to 2 kernel calls (DOP853: 1; 3 thorough) in state dimension 1 with shared uninterpreted kernels/helpers; zero-skip guards explored on the generic side'},
+  'note': 'H of degree <= 3 with 13 symbolic coefficients; driver product runs unwound to 2 kernel calls (DOP853: 1 quick, 2 thorough; others 3 thorough), refinement-call arguments compared, in state dimension 1 with shared uninterpreted kernels/helpers; zero-skip guards explored on the generic side'},
  {'id': 'C06',
   'technique': 'QF_BV queries on the real packing kernels; symbolic execution of the polynomial kernels on symbolic coefficients against an independent dictionary algebra (normal-form/z3 residuals); symbolic thread ids for the prange kernels (z3 over all assignments)',
   'level': 'Packing: decode(pack(k)) = k for all fields, injective per degree, table = bijection onto the multi-indices (exhaustive to the stated degree). Algebra: add, scale, multiply, power, differentiate, integrate, Poisson bracket, '
@@ -68,7 +68,7 @@ CHECKS = [
   'technique': 'symbolic execution of the partial and full Lie transforms and of the coordinate expansions on a Hamiltonian with formal frequencies and symbolic higher-order coefficients; residual coefficients decided on exact rational-function normal forms against an independent composition/bracket reference',
   'level': 'For all frequencies (non-resonant) and coefficient values: every removable monomial of degree 3..N vanishes identically after the transform, H2 is untouched, H_new = H_old o Phi with the code\'s own forward series, '
            '{Phi_i, Phi_j} = J_ij and Phi^-1 o Phi = id to the stated order.',
-  'note': 'elimination N <= 5 (6 thorough), composition obligations N <= 4 (5 thorough); H3, H4 supports of 7 symbolic coefficients (two supports, one seeded); non-resonance and generic-side cleaning assumed; degrees 7..10 outside'},
+  'note': 'elimination N <= 5 (6 thorough), composition obligations N <= 4 dense (5 with a reduced support, thorough); a sparse symbolic generator is taken to degree 8 (9 thorough) for canonicity and inverse o forward; H3, H4 supports of 7 symbolic coefficients (two supports, one seeded); non-resonance and generic-side cleaning assumed; dense Hamiltonians above these degrees outside'},
  {'id': 'C16',
   'technique': 'symbolic execution of the three sub-maps on a polynomial Hamiltonian with symbolic coefficients; Jacobians by engine differentiation; M^T J M = J, inverse and generator identities decided by z3 on normal forms (sin/cos atoms with s^2 = 1 - c^2); recorded composition structure and triple-jump condition',
   'level': 'For all extended states, sub-steps, coupling constants and coefficient values each sub-map is symplectic for dQ^dP + dX^dY, exactly reversible, and generated by its part of the extended Hamiltonian, which restricts to H on the diagonal; '
@@ -83,7 +83,7 @@ CHECKS = [
   'technique': 'symbolic execution of the libration services with mu, gamma symbolic; NRA queries (z3) for equilibrium <=> quintic, monotonicity and bracket sign changes (Brent by contract, path-exhaustive); characteristic-polynomial and normal-form identities on normal forms modulo the defining relations',
   'level': 'For all mu in the stated range: the CR3BP field vanishes at x_k(gamma) iff the code\'s quintic vanishes; the root function is strictly monotone on each region (uniqueness, so ratio and position agree); the primary or fallback bracket always changes sign (also for the 19 catalogue ratios); '
            'L4/L5 are exact equilibria; the local linear matrix has the characteristic polynomial of the CR3BP Jacobian; C^T J C = J and H2 o C is the diagonal normal form modulo the eigen-relations.',
-  'note': 'Brent/LAPACK behind contracts (convergence and mode selection outside); bracket obligation over mu in [1e-9, 1/2] as named by the property; triangular linear modes not encoded'},
+  'note': 'Brent/LAPACK behind contracts (convergence and mode selection outside); bracket and bracket-region obligations over mu in [1e-9, 1/2] (eight adjacent pieces) as named by the property; triangular linear modes not encoded'},
  {'id': 'C05',
   'technique': 'path-exhaustive symbolic execution (z3) of the Newton loop, the Armijo search and the plain step with residual map, norm, Jacobian and linear solve uninterpreted; implicit-function Jacobian identity against the real CR3BP field',
   'level': 'For all residual maps, norms, start points, tolerances and caps within the bounds: every normal return of the Newton backend reports residual_norm = N(R(x_corrected)) < tol and every other path raises ConvergenceError; Armijo never increases the residual norm and '
@@ -98,7 +98,7 @@ CHECKS = [
   'technique': 'path-exhaustive symbolic execution (z3) of the crossing test and of the return-map step with integrator and field uninterpreted; access logging under permuted prange orders; product exploration of the engine over success patterns, worker counts and completion orders',
   'level': 'A return is reported exactly at the first step whose end states change the sign of the section coordinate strictly in the section\'s direction, refined at alpha in (0,1) with time elapsed + alpha dt; every write of seed i goes to cell i and output i depends on seed i only; '
            'every returned row has section coordinate exactly 0; the multiset of returned rows is identical for 1..3 workers and every completion order, for every success pattern of the per-seed map.',
-  'note': '4 seeds, 2 map iterations, <= 2 integration steps per return, 3 workers; direction convention read from the code comments; energy conservation and interpolation accuracy are numerics outside; RK copy = generic kernel is C02-(4)'},
+  'note': '4 seeds, 2 map iterations, <= 2 integration steps per return, 3 workers (thorough: 5 and 7 seeds, 4 workers, 3 steps); direction convention read from the code comments; energy conservation and interpolation accuracy are numerics outside; RK copy = generic kernel is C02-(4)'},
  {'id': 'C09',
   'technique': 'symbolic execution of the centre-manifold <-> synodic service chain: exact round trip with identity series (normal forms over Q(sqrt 2, i)), truncated power-series arithmetic (nilpotent parameter) with the code\'s own Lie series, path-exhaustive exploration of the section lift with Brent by contract',
   'level': 'For symbolic points, mu, gamma and normal-form family: every linear stage is undone by its partner and the 4-D/6-D slots are consistent (exact round trip), stages are composed in the right order, to_cm o to_synodic = id mod degree N+1 with the code\'s forward/inverse series, '
